@@ -125,6 +125,41 @@ impl Run {
                 self.machinery_error(format!("panic in the harness: {m}"));
             }
         }
+        // results of the AddressSanitizer tier, produced by ./check before this engine runs (thorough tier of C03/C04):
+        // the same engine, built with -Zsanitizer=address, has explored the quick bounds in a scratch directory
+        if let Ok(p) = std::env::var("VERIF_ASAN_RESULT") {
+            match std::fs::read_to_string(&p).ok().and_then(|s| serde_json::from_str::<Value>(&s).ok()) {
+                Some(v) => {
+                    self.set("asan_engine_exit", v["rc"].as_i64().unwrap_or(-1));
+                    self.set("asan_wall_s", v["wall_s"].as_f64().unwrap_or(0.0));
+                    if let Some(c) = v["coverage"].as_object() {
+                        for (k, x) in c {
+                            if x.is_number() || x.is_boolean() {
+                                self.cov.insert(format!("asan_{k}"), x.clone());
+                            }
+                        }
+                    }
+                    if let Some(a) = v["violations"].as_array() {
+                        for x in a {
+                            let id = x["identity"].as_str().unwrap_or("?");
+                            self.violation(Violation { identity: format!("asan-build:{id}"), what: format!("under the AddressSanitizer build of the engine: {}", x["what"].as_str().unwrap_or("")), replay: x.clone() });
+                        }
+                    }
+                    let report = v["report"].as_str().unwrap_or("");
+                    if !report.is_empty() {
+                        let first = report.lines().find(|l| l.contains("ERROR: AddressSanitizer")).unwrap_or("AddressSanitizer report").trim().to_string();
+                        // the address and pc differ from run to run: the identity is the kind of error and the first frame in the code under test
+                        let kind = first.split("AddressSanitizer:").nth(1).map(|t| t.trim().split(' ').next().unwrap_or("").to_string()).unwrap_or_default();
+                        let frame = report.lines().find(|l| l.contains("/ruzstd/src/")).map(|l| l.rsplit('/').next().unwrap_or("").trim().to_string()).unwrap_or_default();
+                        self.violation(Violation { identity: format!("asan:{kind}:{frame}"), what: format!("AddressSanitizer reports an invalid memory access in the explored code: {}", truncate(report, 1500)), replay: json!({"asan": true, "report": truncate(report, 6000)}) });
+                    }
+                    if v["machinery_error"].is_string() {
+                        self.machinery_error(format!("AddressSanitizer tier: {}", v["machinery_error"].as_str().unwrap()));
+                    }
+                }
+                None => self.machinery_error(format!("AddressSanitizer result file {p} is unreadable")),
+            }
+        }
         let dir = verif_dir();
         let known = load_known(&dir);
         let mut real = 0;
